@@ -153,15 +153,18 @@ def extra_mutations(base: dict) -> st.SearchStrategy:
 
 
 # ---- (c) structural single edits ---------------------------------------------------------------------
-def structural_edit(doc: dict) -> st.SearchStrategy:
+STRUCTURAL_KINDS = [
+    "struct-name", "prop-type", "prop-optional", "prop-name", "extends", "enum-value", "enum-type", "method", "direction",
+    "params", "result", "partial", "errordata", "regopts", "regmethod", "version", "drop-struct", "drop-alias", "swap-structs",
+    "alias-type", "alias-name", "swap-aliases", "notif-method", "drop-enum", "literal-prop", "array-element", "or-order",
+]
+
+
+def structural_edit(doc: dict, kind: Optional[str] = None) -> st.SearchStrategy:
     @st.composite
     def _s(draw):
         d = copy.deepcopy(doc)
-        k = draw(st.sampled_from([
-            "struct-name", "prop-type", "prop-optional", "prop-name", "extends", "enum-value", "enum-type", "method", "direction",
-            "params", "result", "partial", "errordata", "regopts", "regmethod", "version", "drop-struct", "drop-alias", "swap-structs",
-            "alias-type", "alias-name", "swap-aliases", "notif-method", "drop-enum", "literal-prop", "array-element", "or-order",
-        ]))
+        k = kind or draw(st.sampled_from(STRUCTURAL_KINDS))
         pick = lambda seq: seq[draw(st.integers(0, len(seq) - 1))]
         other_t = {"kind": "base", "name": "decimal"}
         if k == "struct-name":
@@ -489,7 +492,8 @@ def run(ctx: Ctx) -> None:
         if eq is not False or ne is not True:
             ctx.finding(("different-loads-equal", kind, "-"), f"structural edit {kind}: models compare equal", {"edit": kind})
 
-    mini(structural_edit(base), n_eq, (ctx.seed, "C18", "eq"), eq_case)
+    for kind in STRUCTURAL_KINDS:  # every kind of structural edit, k generated instances each
+        mini(structural_edit(base, kind), max(2, n_eq // len(STRUCTURAL_KINDS)), (ctx.seed, "C18", "eq", kind), eq_case)
     samples.append({"structural_edit_kinds": sorted(k.split(":", 1)[1] for k in counters if k.startswith("structural-edit:"))[:8]})
 
     # (d) gate
